@@ -128,7 +128,7 @@ func (h *Host) HostCall(pc ProgramCounter, instrCount uint64) (psi_result Psi_H_
 		}
 		omegaResult := omega(input)
 		opName := "unknown"
-		if int(input.Operation) < len(hostCallName) {
+		if input.Operation >= 0 && int(input.Operation) < len(hostCallName) {
 			opName = hostCallName[input.Operation]
 		}
 		pvmLogger.Debugf("%s host-call return: %d, gas : %d\nRegisters: %v\n",
